@@ -7,6 +7,7 @@ import (
 	"fmt"
 	"os"
 	"path/filepath"
+	"regexp"
 	"sort"
 	"strconv"
 	"strings"
@@ -59,6 +60,8 @@ type Ctx struct {
 	evals      int64
 	level      string
 	replayN    int
+	collect    bool // reducer mode: violations are only collected
+	collected  []Violation
 }
 
 type Violation struct {
@@ -127,11 +130,6 @@ func NewCtx(prop, tier string) *Ctx {
 		fmt.Println("cannot create scratch dir:", err)
 		os.Exit(2)
 	}
-	if olds, _ := filepath.Glob(filepath.Join(verifHome(), "replays", fmt.Sprintf("%s-seed%d-*.json", prop, seed))); true {
-		for _, o := range olds {
-			os.Remove(o)
-		}
-	}
 	c := &Ctx{Prop: prop, Tier: tier, Seed: seed, Start: time.Now(), Tmp: tmp, knownHits: map[string]int{},
 		counters: map[string]int64{}, distinct: map[string]struct{}{}, extra: map[string]interface{}{}, level: "exploration"}
 	for _, f := range loadFindings() {
@@ -140,6 +138,14 @@ func NewCtx(prop, tier string) *Ctx {
 		}
 	}
 	return c
+}
+
+// ClearReplays removes replay files of earlier runs of this property and seed.
+func (c *Ctx) ClearReplays() {
+	olds, _ := filepath.Glob(filepath.Join(verifHome(), "replays", fmt.Sprintf("*%s-seed%d-*.json", c.Prop, c.Seed)))
+	for _, o := range olds {
+		os.Remove(o)
+	}
 }
 
 func (c *Ctx) Thorough() bool { return c.Tier == "thorough" }
@@ -196,6 +202,13 @@ func (c *Ctx) Inconclusive(why string) {
 
 // matchSig: a finding signature matches exactly, or by prefix when it ends in '*'.
 func matchSig(pat, sig string) bool {
+	if strings.HasPrefix(pat, "re:") {
+		re, err := regexp.Compile(pat[3:])
+		if err != nil {
+			return false
+		}
+		return re.MatchString(sig)
+	}
 	if strings.HasSuffix(pat, "*") {
 		return strings.HasPrefix(sig, strings.TrimSuffix(pat, "*"))
 	}
@@ -207,6 +220,10 @@ func matchSig(pat, sig string) bool {
 func (c *Ctx) Report(sig, what string, replay interface{}) {
 	c.mu.Lock()
 	defer c.mu.Unlock()
+	if c.collect {
+		c.collected = append(c.collected, Violation{Sig: sig, What: what})
+		return
+	}
 	for _, f := range c.findings {
 		if matchSig(f.Sig, sig) {
 			c.knownHits[f.ID]++
